@@ -773,6 +773,15 @@ def _dot(a, b):
     return _wrap_result(np.dot(a, b))
 
 
+def _row_mask(res, a, axis):
+    """np.all / np.any over the LAST axis of a 2-D table of symbolic truth values: a row mask.  It is used to select rows of arrays that may be concrete,
+    which numpy only does with a real boolean array: every truth value is decided (one path per outcome), as for `keep &= mask` and logical_and.reduce."""
+    if axis in (1, -1) and np.ndim(a) == 2 and isinstance(res, np.ndarray) and res.ndim == 1 and res.dtype == object \
+            and all(isinstance(v, (SymBool, bool, np.bool_)) for v in res.reshape(-1)):
+        return np.frompyfunc(lambda v: bool(v), 1, 1)(np.asarray(res).view(np.ndarray)).astype(np.bool_)
+    return res
+
+
 def _where(c, a=None, b=None):
     if a is None:
         raise Unsupported("np.where(cond) with a symbolic condition")
@@ -817,8 +826,8 @@ _FUNCS = {
     np.round: _np_round,
     np.around: _np_round,
     np.cross: _np_cross,
-    np.all: lambda a, axis=None, **kw: sym_reduce(_logical_and, a, axis),
-    np.any: lambda a, axis=None, **kw: sym_reduce(_logical_or, a, axis),
+    np.all: lambda a, axis=None, **kw: _row_mask(sym_reduce(_logical_and, a, axis), a, axis),
+    np.any: lambda a, axis=None, **kw: _row_mask(sym_reduce(_logical_or, a, axis), a, axis),
     np.mean: lambda a, axis=None, **kw: to_symarray(a).mean(axis),
     np.sum: lambda a, axis=None, **kw: to_symarray(a).sum(axis, **{k: v for k, v in kw.items() if k == "keepdims"}),
     np.fix: lambda a, out=None: elementwise(_UNARY[np.trunc], a),
